@@ -94,7 +94,7 @@ Record ufuns := mkU {
   u_cb : bytes -> option (nat -> list val -> option err);
   u_get : bytes -> option (nat -> list val -> val + err);
   u_mod : bytes -> option (nat -> val -> list val -> val + err);
-  u_cond : bytes -> option (nat -> list val -> bool);
+  u_cond : bytes -> option (nat -> list val -> bool * option err);   (* a helper reports failure through ctx.Err *)
   u_condok : bytes -> option (nat -> list val -> val * bool);
   u_ins : bytes -> option insk;
 }.
@@ -748,7 +748,8 @@ Definition call_cond (c : ctx) (name : bytes) (al : list arg) : ctx * option boo
   | Some f =>
       let '(c, a) := collect_args c al [] in
       let '(c, n) := log_call c (bs "cond") name a in
-      (c, Some (f n a))
+      let '(b, e) := f n a in
+      (match e with Some x => w_cerr c (Some x) | None => c end, Some b)
   end.
 
 Section WITH_REC.
